@@ -1,6 +1,6 @@
 (* C03 — property theorems only.  Each is closed by `exact` of a lemma of C03_Proofs.v. *)
 From Coq Require Import List NArith ZArith Bool.
-From Dae Require Import C03_Spec C03_Model C03_Proofs C03_ParseProofs C03_BytesProofs C03_SeqProofs C03_HookProofs C03_FreshProofs.
+From Dae Require Import C03_Spec C03_Model C03_Proofs C03_ParseProofs C03_BytesProofs C03_SeqProofs C03_HookProofs C03_FreshProofs C03_RecoverProofs.
 From Dae.gen Require Import C03_Consts C03_Layout.
 Import ListNotations.
 Open Scope N_scope.
@@ -263,6 +263,26 @@ Theorem C03_proxy_redirects_with_record :
      fresh_wan P e st eth proto pf lin f = ToDae false IPPROTO_TCP (the_record e p d true)).
 Proof. exact C03_proxy_redirects_with_record_glue. Qed.
 Print Assumptions C03_proxy_redirects_with_record.
+
+(* dae may handle a redirected packet only after further packets of the same tuple were redirected.  Recovery
+   (RetrieveRoutingResult with its effect on the maps: it only deletes a handoff entry it finds expired) is
+   repeatable: after a redirect whose record is recoverable, ANY number n of recoveries of that tuple return
+   that record and leave both maps unchanged. *)
+Theorem C03_handoff_recover_repeatable :
+  forall h k now p l r n,
+    observe h k now = ToDae p l r ->
+    recover_many go_recover (h_st h) (repeat k n) now = (repeat (Some r) n, h_st h).
+Proof. exact redirect_recover_repeatable_proof. Qed.
+Print Assumptions C03_handoff_recover_repeatable.
+
+(* The same claim for a recovery that consumes the handoff record when it reads it is false: the second of two
+   in-flight datagrams of a stateless (port 53) flow finds nothing. *)
+Definition C03_consuming_recover_repeatable : Prop :=
+  forall st k now r, fst (go_recover_consuming st k now) = Some r ->
+                     fst (recover_many go_recover_consuming st [k; k] now) = [Some r; Some r].
+Theorem C03_consuming_recover_refuted : ~ C03_consuming_recover_repeatable.
+Proof. exact consuming_recover_refuted_proof. Qed.
+Print Assumptions C03_consuming_recover_refuted.
 
 (* Non-vacuity: an established proxied TCP flow in the table; its ACK packet is redirected with the record,
    and a WAN-originated reply flow (entry without decision) passes. *)
